@@ -10,6 +10,13 @@ unsigned long g_pos;          /* the caller's position cell */
 int g_threw, g_calls, g_which;
 _Bool nondet_bool(void);
 
+float in_stof_val; double in_stod_val; unsigned long in_stof_pos; _Bool in_stof_throws;
+/* assumed contract of std::stof: the correctly rounded float of a literal within float range (never an infinity unless the
+   literal IS an infinity), or throws out_of_range; std::stod likewise for double */
+double vx_ext_stof(int which, int *throws, unsigned long *pos) {
+    g_calls++; g_which = which; *throws = in_stof_throws; *pos = in_stof_pos;
+    return which == 6 ? (double)in_stof_val : in_stod_val;
+}
 void vx_throw(void) { g_threw = 1; }
 unsigned long vx_ext_sto(int which, int *throws, unsigned long *pos) {
     g_calls++; g_which = which;
@@ -43,6 +50,18 @@ __CPROVER_ensures(g_which != 1 ==> (long)__CPROVER_return_value == in_stoi_val)
 __CPROVER_ensures(POS_OK(in_stoi_pos))
 __CPROVER_assigns(g_threw, g_calls, g_which, g_pos);
 
+/* float: the value stored is the parsed value; a finite parsed value is never stored as an infinity (that would be a
+   literal outside the float range accepted silently); NaN literals stay NaN */
+#define ISINF(x) ((x) == (x) && ((x) - (x)) != ((x) - (x)))
+float h_fstr(unsigned long *position)
+__CPROVER_requires((position == NULL || position == &g_pos) && g_threw == 0 && g_calls == 0 && !in_stof_throws && in_stof_pos < (1ul << 62))
+__CPROVER_ensures(g_calls == 1 && g_threw == 0)
+__CPROVER_ensures(g_which == 6 ==> (__CPROVER_return_value == in_stof_val || (in_stof_val != in_stof_val && __CPROVER_return_value != __CPROVER_return_value)))
+__CPROVER_ensures(g_which != 6 ==> (!ISINF(__CPROVER_return_value) || ISINF(in_stod_val)))
+__CPROVER_ensures(g_which != 6 ==> ((in_stod_val != in_stod_val) == (__CPROVER_return_value != __CPROVER_return_value)))
+__CPROVER_ensures(position == NULL || g_pos == in_stof_pos)
+__CPROVER_assigns(g_threw, g_calls, g_which, g_pos);
+
 unsigned h_readRamUnsigned(unsigned long *charactersRead, unsigned long element_size)
 __CPROVER_requires(charactersRead == &g_pos && element_size > 0 && g_threw == 0 && g_calls == 0 && !in_ufs_throws)
 __CPROVER_ensures(g_calls == 1 && g_threw == 0)
@@ -56,7 +75,8 @@ __CPROVER_assigns(g_threw, g_calls, g_which, g_pos, g_ufs_base);
 #define CANARY
 #endif
 int nondet_int(void); unsigned long nondet_ulong(void);
-static void inputs(void) { in_stoul_val = nondet_ulong(); in_stoul_pos = nondet_ulong(); in_stoul_throws = nondet_bool(); in_stoi_val = (long)nondet_ulong(); in_stoi_pos = nondet_ulong(); in_stoi_throws = nondet_bool(); in_ufs_val = (unsigned)nondet_int(); in_ufs_pos = nondet_ulong(); in_ufs_throws = nondet_bool(); in_pos_null = nondet_bool(); in_binary = nondet_bool(); g_pos = nondet_ulong(); }
+static void inputs(void) { in_stoul_val = nondet_ulong(); in_stoul_pos = nondet_ulong(); in_stoul_throws = nondet_bool(); in_stoi_val = (long)nondet_ulong(); in_stoi_pos = nondet_ulong(); in_stoi_throws = nondet_bool(); in_ufs_val = (unsigned)nondet_int(); in_ufs_pos = nondet_ulong(); in_ufs_throws = nondet_bool(); in_pos_null = nondet_bool(); in_binary = nondet_bool(); g_pos = nondet_ulong(); float f; double d; in_stof_val = f; in_stod_val = d; in_stof_pos = nondet_ulong(); in_stof_throws = nondet_bool(); }
 void harness_ustr(void) { inputs(); g_threw = 0; g_calls = 0; h_ustr_tail(in_pos_null ? NULL : &g_pos, nondet_int(), in_binary); CANARY; }
 void harness_sstr(void) { inputs(); g_threw = 0; g_calls = 0; h_sstr_tail(in_pos_null ? NULL : &g_pos, nondet_int(), in_binary); CANARY; }
+void harness_fstr(void) { inputs(); g_threw = 0; g_calls = 0; h_fstr(in_pos_null ? NULL : &g_pos); CANARY; }
 void harness_rru(void) { inputs(); g_threw = 0; g_calls = 0; h_readRamUnsigned(&g_pos, nondet_ulong()); CANARY; }
